@@ -790,6 +790,45 @@ def worsening(rng, count):
     return cases
 
 
+def fix_relax(rng, count):
+    """branch-and-bound style histories: solve, fix one column at a value inside its bounds (index form), solve, relax the bound again through one
+    of the change functions (index / vector form, lower / upper / both; a relaxed lower bound is often exactly 0), solve.  The basis status
+    of the fixed column has to follow every step (P_FIXED while lower == upper only)."""
+    d = dy
+    cases = []
+    for _ in range(count):
+        n, m = rng.randint(2, 4), rng.randint(2, 4)
+        cols = [(rng.choice([-3, -2, -1, 1, 2, 3]), 0, rng.choice([INF, 4, 6, 8])) for _ in range(n)]
+        rows = []
+        for i in range(m):
+            js = rng.sample(range(n), rng.randint(1, min(3, n)))
+            rows.append((rng.randint(4, 12), [(j, rng.choice([1, 1, 2])) for j in sorted(js)]))
+        base = ["ACS %d %s" % (n, " ".join("%s %s %s 0" % (d(c), d(lo), d(up)) for (c, lo, up) in cols)),
+                "ARS %d %s" % (m, " ".join("%s %s %d %s" % (d(-INF), d(b), len(es), " ".join("%d %s" % (j, d(a)) for j, a in es)) for (b, es) in rows))]
+        j = rng.randrange(n)
+        v = rng.choice([1, 2, 3])
+        fix = "B1 %d %s %s" % (j, d(v), d(v))
+        lo_after = [0] * n
+        up_after = [c[2] for c in cols]
+        kind = rng.randrange(6)
+        if kind == 0:
+            relax = ["WV %d %s" % (n, " ".join(d(x) for x in lo_after))]
+        elif kind == 1:
+            relax = ["W1 %d %s" % (j, d(0))]
+        elif kind == 2:
+            relax = ["UV %d %s" % (n, " ".join(d(v if k == j and up_after[k] == INF else up_after[k]) for k in range(n))), "WV %d %s" % (n, " ".join(d(x) for x in lo_after))]
+        elif kind == 3:
+            relax = ["BV %d %s %s" % (n, " ".join(d(x) for x in lo_after), " ".join(d(max(x, v)) for x in up_after))]
+        elif kind == 4:
+            relax = ["WV %d %s" % (n, " ".join(d(x if k != j else rng.choice([0, 0, 1, -1])) for k, x in enumerate(lo_after)))]
+        else:
+            relax = ["UV %d %s" % (n, " ".join(d(max(x, v)) for x in up_after))]
+        sd = {"scaler": rng.choice([0, 2, 2, 3]), "persist": rng.randrange(2), "simplifier": rng.choice([0, 0, 1, 3]), "rep": rng.randrange(3),
+              "sense": rng.choice([1, -1])}
+        cases.append({"set": sd, "ops": base + ["OPT", fix, "OPT"] + relax + ["OPT"], "family": "fix-relax"})
+    return cases
+
+
 def main():
     ck = vlib.Check("C06", "proof")
     proved = ck.prove()
@@ -820,6 +859,7 @@ def main():
                     cases.append(c)
         cases += systematic()
         cases += worsening(ck.rng, 60 if ck.tier == "quick" else 600)
+        cases += fix_relax(ck.rng, 120 if ck.tier == "quick" else 1500)
         for c in cases:
             ck.count("family:" + c["family"].split(":")[0])
         ncases, nops = (2000, 25) if ck.tier == "quick" else (30000, 80)
